@@ -205,10 +205,30 @@ def run_case(case, R):
         sp = space.scalar_spec(names, u[case["i"]])
         p, m = build_checked(sp), model_of(sp)
         R.state(("forms", case["i"]))
-        for a, b in ((-1, 3), (0.5, numpy.int64(-2)), (numpy.float32(2.0), 1j), (True, 65537)):
+        for (a, b), cfg in itertools.product(((-1, 3), (0.5, numpy.int64(-2)), (numpy.float32(2.0), 1j), (True, 65537)),
+                                             ({}, {"retain_names": False}, {"retain_coefficients": True}, {"retain_names": False, "retain_coefficients": True})):
+          if cfg and b == 65537:
+              # zero terms kept by retain_coefficients=True have higher degree than the polynomial: 0 * 65537**4 does not fit int64
+              continue
+          with numpoly.global_options(**cfg):
             A, B = V.const(a), V.const(b)
             full = m.subs({"q0": A, "q1": B})
-            tg = vtag("py", a) + vtag("py", b)
+            tg = vtag("py", a) + vtag("py", b) + [f"{k_}={v_}" for k_, v_ in cfg.items()]
+            # the function form takes the positional arguments in any sequence type (one entry per indeterminate)
+            for lab, f in (("numpoly.call(p,[a,b])", lambda: numpoly.call(p, [a, b])), ("numpoly.call(p,(a,b))", lambda: numpoly.call(p, (a, b))),
+                           ("numpoly.call(p,array([a,b]))", lambda: numpoly.call(p, numpy.array([a, b]))),
+                           ("numpoly.call(p,array([[a],[b]]))", lambda: numpoly.call(p, numpy.array([[a], [b]]))),
+                           ("numpoly.call(p,iter)", lambda: numpoly.call(p, tuple(x for x in (a, b))))):
+                if "array" in lab:
+                    arr_ = numpy.array([a, b])
+                    full_ = m.subs({"q0": V.const(arr_[0]), "q1": V.const(arr_[1])})
+                    if "[[a]" in lab:
+                        full_ = full_.map(lambda c: c.reshape(c.shape + (1,)))
+                    if not terms_fit(m, {"q0": V.const(arr_[0]), "q1": V.const(arr_[1])}):
+                        continue
+                    judge_numeric(R, f"{u[case['i']]}: {lab} a={a!r} b={b!r} {cfg}", f, full_, (), tg + ["form=call-function-container"])
+                else:
+                    judge_numeric(R, f"{u[case['i']]}: {lab} a={a!r} b={b!r} {cfg}", f, full, (), tg + ["form=call-function-container"])
             for lab, f in (("p(a,b)", lambda: p(a, b)), ("p(a,q1=b)", lambda: p(a, q1=b)), ("p(q0=a,q1=b)", lambda: p(q0=a, q1=b)),
                            ("p(q1=b,q0=a)", lambda: p(q1=b, q0=a)), ("p(None,b)(a)", lambda: stage(p(None, b), a)),
                            ("p(a)(q1=b)", lambda: stage(p(a), q1=b)), ("p(q1=b)(q0=a)", lambda: stage(p(q1=b), q0=a)),
